@@ -237,7 +237,48 @@ def solve_animals(c, tc):
     return _solve(B, cost, lo, hi, None)
 
 
+# reference variable family -> the model's variable name (one per month), for checking a solution of the model against the reference
+MODEL_NAMES = {"sf_h": "Stored_Food_To_Humans", "sf_f": "Stored_Food_Feed", "sf_b": "Stored_Food_Biofuel", "sf_left": "Stored_Food_End",
+               "cr_h": "Crops_Food_To_Humans", "cr_f": "Crops_Food_Feed", "cr_b": "Crops_Food_Biofuel", "cr_left": "Crops_Food_Storage",
+               "scp_h": "Methane_SCP_To_Humans", "scp_f": "Methane_SCP_Feed", "scp_b": "Methane_SCP_Biofuel",
+               "cs_h": "Cellulosic_Sugar_To_Humans", "cs_f": "Cellulosic_Sugar_Feed", "cs_b": "Cellulosic_Sugar_Biofuel",
+               "sw_h": "Seaweed_To_Humans", "sw_f": "Seaweed_Feed", "sw_b": "Seaweed_Biofuel", "sw_W": "Seaweed_Wet_On_Farm", "sw_A": "Used_Area",
+               "me": "Meat_Eaten"}
+
+
+def witness(B, values, objective_value, rtol=1e-6):
+    """Is the model-side solution `values` ({model variable name: value}) a feasible point of the reference programme B (every bound and
+    row within rtol of its own magnitude)?  Returns (feasible, value of the reference objective at that point, first violated constraint)."""
+    x = np.zeros(B.n)
+    for k, ids in B.idx.items():
+        if k not in MODEL_NAMES:
+            return False, None, "reference variable family %s has no counterpart in the model" % k
+        for m, j in enumerate(ids):
+            name = "%s_Month_%d_Variable" % (MODEL_NAMES[k], m)
+            # a variable that occurs in no constraint of the model's programme (stock variables after the last month stocks may be used)
+            # is absent from it: its reference counterpart takes its lower bound; if that matters, a row below will say so
+            x[j] = values[name] if name in values else B.lo[j]
+    if B.z is not None:
+        x[B.z] = objective_value
+    inv = {}
+    for k, ids in B.idx.items():
+        for m, j in enumerate(ids):
+            inv[int(j)] = "%s[%d]" % (k, m)
+    for j in range(B.n):
+        if x[j] < B.lo[j] - rtol * max(1.0, abs(B.lo[j])) or (np.isfinite(B.hi[j]) and x[j] > B.hi[j] + rtol * max(1.0, abs(B.hi[j]))):
+            return False, None, "bound of %s: %.9g outside [%.9g, %.9g]" % (inv.get(j, "z"), x[j], B.lo[j], B.hi[j])
+    for rows, rhs, eq in ((B.rows_ub, B.b_ub, False), (B.rows_eq, B.b_eq, True)):
+        for row, b in zip(rows, rhs):
+            terms = [coef * x[j] for j, coef in row.items()]
+            v = sum(terms)
+            scale = max(1.0, abs(b), max((abs(t) for t in terms), default=0.0))
+            if (eq and abs(v - b) > rtol * scale) or (not eq and v > b + rtol * scale):
+                return False, None, "%s row over %s: %.9g vs %.9g" % ("equality" if eq else "inequality", [inv.get(j, "z") for j in list(row)[:5]], v, b)
+    return True, float(-(B.cost @ x)), None
+
+
 def _solve(B, cost, lo, hi, z):
+    B.lo, B.hi, B.z, B.cost = lo, np.maximum(hi, lo), z, cost
     # bounds that cross by less than the solver's own feasibility tolerance (1e-6 billion kcals) are noise of the previous round
     infeasible_bounds = bool(np.any(hi < lo - 1e-6 * np.maximum(1.0, np.abs(lo))))
     hi = np.maximum(hi, lo)
